@@ -150,6 +150,9 @@ func (obj *Mixture) ImportConfig(config ConfigDistribution, t ScalarType) error 
       distributions[i] = tmp
     }
   }
+  if len(distributions) != obj.NComponents() {
+    return fmt.Errorf("invalid config file: number of distributions does not match the number of mixture weights")
+  }
   obj.Edist = distributions
 
   return nil
